@@ -19,7 +19,10 @@ EXPLANATION = (
     "otherwise queue (bounded deque) or drop. All acyclic paths are enumerated and classified. When send (or the "
     "constructor opt-in, set_anonymity, the delivery filter, Circuit.exit_flags) is not in the reviewed shape, the same "
     "conditions are decided by symbolic execution of every path through the function, its private helpers, closures, "
-    "generators and dispatch tables (values and tested facts per path; no statement positions). Closed caller sets: raw "
+    "generators and dispatch tables (values and tested facts per path; no statement positions), including lazy itertools / "
+    "functools / operator pipelines and callables (judged where they are iterated / called), objects of private classes of the "
+    "module used in place of closures, `except KeyError` / contextlib.suppress exits (a KeyError of table[key] means no entry) and "
+    "staged filters (judged together at the return). Closed caller sets: raw "
     "endpoint.send inside TunnelEndpoint (or in helpers only send reaches), no `.endpoint.endpoint` / "
     "getattr(endpoint, 'endpoint') reach-under, set_anonymity writers, opt-in in Community.__init__, delivery filter; "
     "Circuit.exit_flags reads the flags of the last hop; find_circuits admits a circuit only if exit_flags is None or "
@@ -429,6 +432,12 @@ _NEVER_NONE = {"len", "isinstance", "issubclass", "hasattr", "callable", "id", "
                "sum", "abs", "any", "all", "zip", "enumerate", "range", "type", "hash", "divmod", "ord", "chr", "hexlify", "unhexlify", "format",
                "round", "bytearray", "memoryview", "slice", "map", "filter", "list", "tuple", "sorted", "reversed", "deque", "bool"}
 _SAME_ELEMENTS = {"list", "tuple", "sorted", "reversed", "iter", "deque"}
+# values built by itertools / functools / operator (lazy iterators and callables): always truthy, never None
+_PIPE_TAGS = {"chained", "chainfrom", "islice", "takewhile", "dropwhile", "filterfalse", "mapped", "starmapped", "accumulated", "filtered",
+              "partial", "itemgetter", "attrgetter", "methodcaller", "itercall"}
+_CALLABLE_TAGS = ("closure", "func", "bound", "attr", "record", "partial", "itemgetter", "attrgetter", "methodcaller")
+_STD_MODULES = ("itertools", "functools", "operator", "contextlib")
+_OP_CMP = {"eq": "eq", "ne": "ne", "lt": "lt", "le": "le", "gt": "gt", "ge": "ge", "is_": "is", "is_not": "isnot"}
 _PURE_METHODS = {"get", "keys", "values", "items", "copy", "startswith", "endswith", "index", "count", "join", "split", "format",
                  "encode", "decode", "hex", "lower", "upper", "strip", "issubset", "issuperset", "union", "intersection",
                  "difference", "isdisjoint", "done", "result", "to_bytes", "from_bytes"}
@@ -493,11 +502,13 @@ class _Frame:
 
 
 class _St:
-    __slots__ = ("frames", "heap", "facts", "events", "effects", "epoch", "qver", "ret")
+    __slots__ = ("frames", "heap", "facts", "events", "effects", "epoch", "qver", "ret", "objs", "exc_from")
 
     def __init__(self) -> None:
         self.frames = []
         self.heap = {}
+        self.objs = {}          # fields of objects the executed code itself created: (object, field) -> value
+        self.exc_from = None    # the statement / condition that was left by an exception (until a handler is entered)
         self.facts = {}
         self.events = []
         self.effects = []
@@ -509,6 +520,8 @@ class _St:
         n = _St()
         n.frames = [f.copy() for f in self.frames]
         n.heap = dict(self.heap)
+        n.objs = dict(self.objs)
+        n.exc_from = self.exc_from
         n.facts = dict(self.facts)
         n.events = list(self.events)
         n.effects = list(self.effects)
@@ -543,6 +556,105 @@ def _is_generator(fnode) -> bool:
                if not isinstance(x, (ast.FunctionDef, ast.AsyncFunctionDef, ast.Lambda)))
 
 
+def _handler_types(t) -> list:
+    """names of the exception classes of an `except` clause / of the arguments of suppress(); [] = anything"""
+    if t is None:
+        return []
+    out = []
+    for e in (t.elts if isinstance(t, ast.Tuple) else [t]):
+        out.append((chain(e) or "?").split(".")[-1])
+    return out
+
+
+def _suppress_items(w) -> list | None:
+    """exception class names a `with` statement suppresses (contextlib.suppress), None when it is not one"""
+    if not isinstance(w, (ast.With, ast.AsyncWith)):
+        return None
+    for item in w.items:
+        ce = item.context_expr
+        if isinstance(ce, ast.Call) and (chain(ce.func) or "").split(".")[-1] == "suppress" and not ce.keywords \
+                and not any(isinstance(a, ast.Starred) for a in ce.args):
+            names = []
+            for a in ce.args:
+                names.extend(_handler_types(a))
+            return names
+    return None
+
+
+def _inside(node, outer) -> bool:
+    return node is outer or any(a is outer for a in ancestors(node))
+
+
+def _suppressor(node):
+    """(with statement, suppressed class names) when an exception leaving `node` first meets a `with suppress(...)` block, else None"""
+    if node is None:
+        return None
+    cur = node
+    through_finally = False
+    for a in ancestors(node):
+        if isinstance(a, (ast.FunctionDef, ast.AsyncFunctionDef, ast.Lambda, ast.ClassDef)):
+            return None
+        if isinstance(a, ast.Try) or a.__class__.__name__ == "TryStar":
+            if any(cur is x for x in a.body) and a.handlers:
+                return None             # the handlers of this try see the exception first (what they let through leaves from the try itself)
+            through_finally = through_finally or bool(a.finalbody)
+        if isinstance(a, (ast.With, ast.AsyncWith)) and any(cur is x for x in a.body):
+            names = _suppress_items(a)
+            if names is not None:
+                if through_finally:
+                    raise _Und("`with suppress(...)` around try / finally")
+                return a, names
+        cur = a
+    return None
+
+
+def _entry_node(cfg, stmt):
+    """the CFG node at which the execution of `stmt` begins"""
+    inside = [n for n in cfg.nodes if n.ast is not None and n.kind not in ("dispatch",) and _inside(n.ast, stmt)]
+    ins = set(map(id, inside))
+    entries = [n for n in inside if any(id(p) not in ins for p, _ in n.pred)]
+    if isinstance(stmt, (ast.For, ast.AsyncFor)):
+        entries = [n for n in inside if n.kind == "stmt" and n.ast is stmt.iter] or entries
+    elif isinstance(stmt, ast.While):
+        entries = [n for n in inside if n.kind == "loop" and n.ast is stmt] or entries
+    elif not entries:
+        # not reached by falling off the previous statement (that one always returns / raises): the node nothing inside leads to
+        entries = [n for n in inside if not any(id(p) in ins for p, _ in n.pred)]
+    if len(entries) != 1:
+        raise _Und("where execution continues after a `with suppress(...)` block")
+    return entries[0]
+
+
+def _after_node(cfg, stmt):  # noqa: C901, PLR0911
+    """the CFG node that follows the normal completion of `stmt`"""
+    p = parent(stmt)
+    for field in ("body", "orelse", "finalbody"):
+        block = getattr(p, field, None)
+        if isinstance(block, list) and any(stmt is x for x in block):
+            i = next(k for k, x in enumerate(block) if x is stmt)
+            if i + 1 < len(block):
+                return _entry_node(cfg, block[i + 1])
+            if isinstance(p, (ast.FunctionDef, ast.AsyncFunctionDef)):
+                return cfg.exit
+            if isinstance(p, (ast.For, ast.AsyncFor, ast.While)) and field == "body":
+                loops = [n for n in cfg.by_ast.get(id(p), []) if n.kind == "loop"]
+                if len(loops) == 1:
+                    return loops[0]
+                raise _Und("where execution continues after a `with suppress(...)` block")
+            if isinstance(p, ast.Try) or p.__class__.__name__ == "TryStar":
+                if p.finalbody:
+                    raise _Und("`with suppress(...)` inside try / finally")
+                if field == "body" and p.orelse:
+                    return _entry_node(cfg, p.orelse[0])
+            return _after_node(cfg, p)
+    if isinstance(p, ast.ExceptHandler) or p.__class__.__name__ == "match_case":
+        pp = parent(p)
+        if getattr(pp, "finalbody", None):
+            raise _Und("`with suppress(...)` inside try / finally")
+        return _after_node(cfg, pp)
+    raise _Und("where execution continues after a `with suppress(...)` block")
+
+
 class _Interp:
     """Symbolic execution of one function (and of what it calls, as far as `follow` says) on all CFG paths."""
 
@@ -565,6 +677,9 @@ class _Interp:
         self._gen_ends = []
         self.all_events = []
         self.entered = {id(top.node)}       # functions whose bodies were executed
+        self._comp_uid = None               # identity of the comprehension whose element is being included (during on_include)
+        self._limports = {}                 # names imported inside a function body: local name -> (module, attribute | None)
+        self._rec_classes = {}              # classes of which the executed code made an instance: name -> ClassInfo
 
     # ---------------------------------------------------------------- hooks for the client
     def follow(self, fi) -> bool:           # may the body of this callee be executed?
@@ -654,6 +769,32 @@ class _Interp:
         if key not in self._globals:
             val = None
             expr = getattr(module, "constants", {}).get(name)
+            if isinstance(expr, ast.Lambda):
+                k = self.uid()
+                self.cenv[k] = {}
+                val = ("closure", expr, k)
+            elif isinstance(expr, ast.Call) and not any(isinstance(a, ast.Starred) for a in expr.args) and all(k.arg for k in expr.keywords):
+                # NAME = itemgetter(0) / attrgetter("x") / methodcaller("m", ...) / partial(f, ...) with constant or named arguments
+                def simple(x):
+                    if isinstance(x, ast.Constant):
+                        return ("const", x.value)
+                    if isinstance(x, ast.Name):
+                        return ("global", x.id)
+                    if isinstance(x, ast.Attribute):
+                        b = simple(x.value)
+                        return ("attr", b, x.attr) if b is not None else None
+                    if isinstance(x, (ast.Tuple, ast.List)):
+                        vs = [simple(y) for y in x.elts]
+                        return None if any(y is None for y in vs) else ("tuple" if isinstance(x, ast.Tuple) else "list", tuple(vs))
+                    return None
+                fv = simple(expr.func)
+                std = self.std_of(fv, module) if fv is not None else None
+                args = [simple(a) for a in expr.args]
+                kws = {k.arg: simple(k.value) for k in expr.keywords}
+                if std in ("operator.itemgetter", "operator.attrgetter", "operator.methodcaller", "functools.partial") \
+                        and not any(a is None for a in args) and not any(a is None for a in kws.values()):
+                    got = self.stdlib_call(expr, std, args, kws, None)
+                    val = got[0][0] if got else None
             if isinstance(expr, (ast.Tuple, ast.List, ast.Set)):
                 elts = []
                 for x in expr.elts:
@@ -692,6 +833,15 @@ class _Interp:
                     op, l, r = "lt", r, l
                 elif op == "le":
                     op, l, r, pol = "lt", r, l, not pol
+                if op in ("eq", "is"):
+                    # a value that is a real bool (a comparison, not ..., bool(...)) compared with True / False: its own truth value
+                    hit = False
+                    for a, b in ((l, r), (r, l)):
+                        if b[0] == "const" and isinstance(b[1], bool) and a[0] in ("truth", "cmp", "not"):
+                            v, pol, hit = a, (pol if b[1] else not pol), True
+                            break
+                    if hit:
+                        continue
                 if op in ("eq", "is") and _vrepr(l) > _vrepr(r):
                     l, r = r, l
                 return ("cmp", op, l, r), pol
@@ -707,6 +857,18 @@ class _Interp:
                 return a[2] in ci.attrs and b[2] in ci.attrs
         return False
 
+    def named_literal(self, v, st):
+        """("const", value) for a literal or for a module-level name bound (once, at module level) to a str / bytes / int literal; None otherwise"""
+        if v[0] == "const":
+            return v if isinstance(v[1], (str, bytes, int)) else None
+        if v[0] != "global" or len(v) != 2:
+            return None
+        r = self.repo.resolve_name(st.frames[-1].fi.module, v[1])
+        expr = r[2] if isinstance(r, tuple) and len(r) == 3 and r[0] == "const" else None
+        if isinstance(expr, ast.Constant) and isinstance(expr.value, (str, bytes, int)):
+            return ("const", expr.value)
+        return None
+
     def base_truth(self, k, st):
         tag = k[0]
         if tag == "const":
@@ -715,7 +877,7 @@ class _Interp:
             return len(k[1]) > 0
         if tag == "dict":
             return len(k[1]) > 0
-        if tag in ("closure", "func", "gen", "bound"):
+        if tag in ("closure", "func", "gen", "bound") or tag in _PIPE_TAGS:
             return True
         if tag == "record" and k[2]:
             return True
@@ -733,12 +895,18 @@ class _Interp:
                         return l[1] in r[1]
                 except TypeError:
                     return None
+            if op in ("eq", "is") and "global" in (l[0], r[0]) and l != r:
+                # module-level NAME = <literal> used as a decision tag: two such names (or one and a literal) compare like their values
+                lv, rv = self.named_literal(l, st), self.named_literal(r, st)
+                if lv is not None and rv is not None and type(lv[1]) is type(rv[1]) and lv[1] is not None \
+                        and (op == "eq" or lv[1] != rv[1] or isinstance(lv[1], bool)):
+                    return lv[1] == rv[1]
             if op in ("eq", "is"):
                 if l == r and l[0] not in ("unknown",):
                     return True
                 for a, b in ((l, r), (r, l)):
-                    if a == _NONE and b[0] in ("tuple", "list", "set", "dict", "closure", "func", "gen", "bound", "qitem", "truth", "cmp", "not",
-                                               "local", "comp", "filtered", "iter", "reversed", "slice", "binop", "record"):
+                    if a == _NONE and (b[0] in ("tuple", "list", "set", "dict", "closure", "func", "gen", "bound", "qitem", "truth", "cmp", "not",
+                                                "local", "comp", "filtered", "iter", "reversed", "slice", "binop", "record") or b[0] in _PIPE_TAGS):
                         return False
                     if a == _NONE and b[0] == "pcall" and b[1][0] == "global" and b[1][1] in _NEVER_NONE:
                         return False
@@ -798,7 +966,14 @@ class _Interp:
         if isinstance(e, ast.Name):
             return [(self.lookup(e.id, st), st)]
         if isinstance(e, ast.Attribute):
-            return [(self.read_attr(b, e.attr, s), s) for b, s in self.ev(e.value, st)]
+            out = []
+            for b, s in self.ev(e.value, st):
+                getter = self.record_property(b, e.attr)
+                if getter is not None:
+                    out.extend(self.invoke(getter.node, b, [], {}, s, e))
+                else:
+                    out.append((self.read_attr(b, e.attr, s), s))
+            return out
         if isinstance(e, ast.Subscript):
             return self.ev_subscript(e, st)
         if isinstance(e, (ast.Tuple, ast.List, ast.Set)):
@@ -1001,10 +1176,16 @@ class _Interp:
             return r
         if base[0] == "const" and base[1] is None:
             return self.unknown()           # attribute of None: this path raises; no value
+        if base[0] == "obj" and (base, name) in st.objs:
+            return st.objs[(base, name)]
         if base[0] == "record":
             for f, val in base[2]:
                 if f == name:
                     return val
+            ci = self._rec_classes.get(base[1])
+            m = ci.lookup(name) if ci is not None else None
+            if m is not None and not ({"property", "classmethod", "staticmethod"} & set(m.decorator_names())):
+                return ("bound", base, m)
         t = self.class_table(base, name, st)
         if t is not None:
             return t
@@ -1076,7 +1257,16 @@ class _Interp:
             return self.run_generator(v, st)
         if v[0] in ("tuple", "list"):
             return [(v[1][0], st)] if v[1] else []
-        if v[0] == "filtered":
+        if v[0] == "chained" and v[1] and v[1][0][0] in ("tuple", "list") and v[1][0][1]:
+            return [(v[1][0][1][0], st)]
+        if v[0] == "islice" and v[2]:
+            return self.first(v[1], st)
+        if v[0] == "mapped" and len(v[2]) == 1:
+            out = []
+            for x, s in self.first(v[2][0], st):
+                out.extend(self.call(v[3], v[1], [x], {}, s))
+            return out
+        if v[0] == "filtered" or v[0] in _PIPE_TAGS:
             return self.elements(v, st)
         if v[0] == "pcall" and v[1] == ("global", "enumerate") and 1 <= len(v[2]) <= 2:
             return [(("tuple", (v[2][1] if len(v[2]) == 2 else ("const", 0), x)), s) for x, s in self.first(v[2][0], st)]
@@ -1095,15 +1285,205 @@ class _Interp:
             return out
         if v[0] == "pcall" and v[1] == ("global", "enumerate") and 1 <= len(v[2]) <= 2:
             return [(("tuple", (self.unknown(), x)), s) for x, s in self.elements(v[2][0], st)]
-        if v[0] == "filtered":
+        if v[0] in ("filtered", "takewhile", "filterfalse"):
+            # every element that comes out was tested by the predicate with this outcome (takewhile: it stops at the first other one)
+            want = v[0] != "filterfalse"
             out = []
             for x, s in self.elements(v[2], st):
                 for r, s2 in self.call(v[3], v[1], [x], {}, s):
                     t = self.truth(r, s2)
-                    if t is True or (t is None and self.assume(r, True, s2)):
+                    if t is want or (t is None and self.assume(r, want, s2)):
                         out.append((x, s2))
             return out
+        if v[0] == "record":
+            ci = self._rec_classes.get(v[1])
+            m = ci.lookup("__iter__") if ci is not None else None
+            if m is not None:
+                out = []
+                for g, s in self.invoke(m.node, v, [], {}, st.fork(), None):
+                    out.extend(self.elements(g, s))
+                return out
+        if v[0] == "chained":
+            out = []
+            for part in v[1]:
+                out.extend(self.elements(part, st.fork()))
+            return out
+        if v[0] == "itercall":
+            # iter(callable, sentinel): what the callable returns, as long as it is not the sentinel
+            out = []
+            for r, s in self.call(v[3], v[1], [], {}, st.fork()):
+                same = ("cmp", "eq", r, v[2])
+                t = self.truth(same, s)
+                if t is False or (t is None and self.assume(same, False, s)):
+                    out.append((r, s))
+            return out
+        if v[0] == "chainfrom":
+            out = []
+            for part, s in self.elements(v[1], st.fork()):
+                out.extend(self.elements(part, s))
+            return out
+        if v[0] == "islice":
+            return self.elements(v[1], st)
+        if v[0] == "dropwhile":
+            # a subset of the elements; the predicate ran on some of them, what it says about the ones that come out is not known
+            out = []
+            for x, s in self.elements(v[2], st):
+                keep = s.fork()
+                self.absorb(keep, [s2 for _, s2 in self.call(v[3], v[1], [x], {}, s)])
+                out.append((x, keep))
+            return out
+        if v[0] in ("mapped", "starmapped"):
+            combos = [((), st)]
+            for i, it in enumerate(v[2]):
+                combos = [(xs + (x,), s2) for xs, s in combos for x, s2 in self.elements(it, s if i == 0 else s.fork())]
+            out = []
+            for xs, s in combos:
+                if v[0] == "starmapped":
+                    x = xs[0]
+                    xs = x[1] if x[0] in ("tuple", "list") else tuple(val for _, val in x[2]) if x[0] == "record" else (_STAR,)
+                out.extend(self.call(v[3], v[1], list(xs), {}, s))
+            return out
+        if v[0] == "accumulated":
+            out = []
+            for x, s in self.elements(v[1], st):
+                if v[2] is None or v[2] == _NONE:
+                    out.append((self.unknown(), s))
+                    continue
+                if v[3] is None:
+                    out.append((x, s.fork()))       # the first element comes out as it is
+                out.extend(self.call(v[4], v[2], [self.unknown(), x], {}, s))
+            if v[3] is not None:
+                out.append((v[3], st.fork()))
+            return out
         return [(("elem", v, self.uid()), st)]
+
+    def absorb(self, st, others) -> None:
+        """what happened in the states `others` (forks of st that ran some call) may have happened in st"""
+        n_ev, n_eff = len(st.events), len(st.effects)
+        base_ev = list(st.events)
+        for o in others:
+            st.events.extend(y for y in o.events if y not in base_ev and y not in st.events[n_ev:])
+            st.effects.extend(y for y in o.effects[n_eff:] if y not in st.effects[n_eff:])
+        if len(st.events) > n_ev or len(st.effects) > n_eff:
+            st.epoch += 1
+            st.qver += 1
+            st.heap.clear()
+
+    # ---------------------------------------------------------------- itertools / functools / operator / contextlib
+    def stdlib_name(self, fv, st):
+        """'itertools.chain', 'functools.partial' ...: the called value is a name imported from one of the modelled standard modules"""
+        return self.std_of(_strip(fv), st.frames[-1].fi.module)
+
+    def std_of(self, fv, m):
+        def imp(name):
+            r = self._limports.get(name)
+            if r is None and name not in getattr(m, "functions", {}) and name not in getattr(m, "classes", {}) \
+                    and name not in getattr(m, "constants", {}):
+                r = getattr(m, "imports", {}).get(name)
+            return r if r is not None and r[0] in _STD_MODULES else None
+        if fv[0] == "global":
+            r = imp(fv[1])
+            return r[0] + "." + r[1] if r is not None and r[1] is not None else None
+        if fv[0] == "attr" and type(fv[1]) is tuple and fv[1]:
+            if fv[1][0] == "global":
+                r = imp(fv[1][1])
+                return (r[0] if r[1] is None else r[0] + "." + r[1]) + "." + fv[2] if r is not None else None
+            if fv[1][0] == "attr":
+                inner = self.std_of(fv[1], m)
+                return inner + "." + fv[2] if inner is not None else None
+        return None
+
+    def stdlib_call(self, c, std, args, kwargs, st):  # noqa: C901, PLR0911, PLR0912
+        """[(value, state)] of a call of a modelled itertools / functools / operator / contextlib function, None when it is not modelled"""
+        if kwargs is None or _STAR in args:
+            return None
+        name = std.split(".", 1)[1]
+        n = len(args)
+        kw = tuple(sorted(kwargs.items(), key=lambda kv: kv[0]))
+        if std == "itertools.chain" and not kwargs:
+            return [(("chained", tuple(args)), st)]
+        if std == "itertools.chain.from_iterable" and n == 1 and not kwargs:
+            return [((("chained", tuple(args[0][1])) if args[0][0] in ("tuple", "list") else ("chainfrom", args[0])), st)]
+        if std == "itertools.islice" and 2 <= n <= 4 and not kwargs:
+            from_start = n == 2 or (args[1] in (_NONE, ("const", 0)) and (n == 3 or args[3] in (_NONE, ("const", 1))))
+            return [(("islice", args[0], from_start), st)]
+        if std in ("itertools.takewhile", "itertools.dropwhile", "itertools.filterfalse") and n == 2 and not kwargs:
+            if args[0] == _NONE:
+                return None
+            return [((name, args[0], args[1], c), st)]
+        if std == "itertools.starmap" and n == 2 and not kwargs:
+            return [(("starmapped", args[0], (args[1],), c), st)]
+        if std == "itertools.accumulate" and 1 <= n <= 2 and set(kwargs) <= {"func", "initial"}:
+            return [(("accumulated", args[0], args[1] if n == 2 else kwargs.get("func"), kwargs.get("initial"), c), st)]
+        if std == "functools.partial" and n >= 1:
+            return [(("partial", args[0], tuple(args[1:]), kw), st)]
+        if std == "functools.reduce" and 2 <= n <= 3 and not kwargs:
+            ran = []
+            for x, s in self.elements(args[1], st.fork()):
+                ran.extend(s2 for _, s2 in self.call(c, args[0], [self.unknown(), x], {}, s))
+            self.absorb(st, ran)
+            return [(self.unknown(), st)]
+        if std == "operator.itemgetter" and n >= 1 and not kwargs:
+            return [(("itemgetter", tuple(args)), st)]
+        if std == "operator.attrgetter" and n >= 1 and not kwargs and all(a[0] == "const" and isinstance(a[1], str) for a in args):
+            return [(("attrgetter", tuple(a[1] for a in args)), st)]
+        if std == "operator.methodcaller" and n >= 1 and args[0][0] == "const" and isinstance(args[0][1], str):
+            return [(("methodcaller", args[0][1], tuple(args[1:]), kw), st)]
+        if std.startswith("operator.") and not kwargs:
+            if n == 1 and name in ("not_", "truth", "is_none", "is_not_none"):
+                a = args[0]
+                return [({"not_": ("not", a), "truth": ("truth", a), "is_none": ("cmp", "is", a, _NONE), "is_not_none": ("cmp", "isnot", a, _NONE)}[name], st)]
+            if n == 2 and name in _OP_CMP:
+                return [(("cmp", _OP_CMP[name], args[0], args[1]), st)]
+            if n == 2 and name == "contains":
+                return [(("cmp", "in", args[1], args[0]), st)]
+            if n == 2 and name == "getitem":
+                return self.index(args[0], args[1], st)
+            if (n, name) in ((3, "setitem"), (2, "delitem")):
+                # the same as the method call base.__setitem__(key, value) / base.__delitem__(key)
+                return self.call(c, ("attr", args[0], f"__{name}__", st.epoch), list(args[1:]), {}, st)
+            if n == 2 and name in ("and_", "or_", "add", "sub", "mul", "xor"):
+                op = {"and_": "BitAnd", "or_": "BitOr", "add": "Add", "sub": "Sub", "mul": "Mult", "xor": "BitXor"}[name]
+                return [(("binop", op, args[0], args[1]), st)]
+            return None
+        if std in ("contextlib.suppress", "contextlib.nullcontext"):
+            return [(("pcall", ("global", name), tuple(args), st.epoch), st)]
+        if std == "itertools.repeat" and 1 <= n <= 2 and not kwargs:
+            return [(("chained", (("tuple", (args[0],)),)), st)]
+        if std == "itertools.cycle" and n == 1 and not kwargs:
+            return [(("islice", args[0], True), st)]
+        if std in ("itertools.count", "itertools.zip_longest", "itertools.product", "itertools.pairwise", "itertools.batched", "itertools.compress",
+                   "itertools.combinations", "itertools.permutations", "itertools.tee") \
+                and not any(a[0] in ("gen", "mapped", "starmapped", "filtered", "takewhile", "dropwhile", "filterfalse", "itercall", "accumulated") for a in args):
+            return [(("pcall", ("global", name), tuple(args), st.epoch), st)]     # rearranges values, calls nothing
+        return None
+
+    def apply_value(self, c, fv, args, kwargs, st):
+        """[(value, state)] of calling a callable built by functools.partial / operator.itemgetter / attrgetter / methodcaller; None otherwise"""
+        tag = fv[0]
+        if tag == "partial":
+            kw = None if kwargs is None else {**dict(fv[3]), **kwargs}
+            return self.call(c, fv[1], list(fv[2]) + list(args), kw, st)
+        if tag not in ("itemgetter", "attrgetter", "methodcaller"):
+            return None
+        if len(args) != 1 or args[0] is _STAR or kwargs:
+            return [(self.unknown(), st)]
+        x = args[0]
+        if tag == "itemgetter":
+            outs = [((), st)]
+            for i in fv[1]:
+                outs = [(vals + (val,), s2) for vals, s in outs for val, s2 in self.index(x, i, s)]
+            return [(vals[0] if len(vals) == 1 else ("tuple", vals), s) for vals, s in outs]
+        if tag == "attrgetter":
+            vals = []
+            for dotted in fv[1]:
+                cur = x
+                for part in dotted.split("."):
+                    cur = self.read_attr(cur, part, st)
+                vals.append(cur)
+            return [(vals[0] if len(vals) == 1 else ("tuple", tuple(vals)), st)]
+        key = (_strip(x), fv[1])
+        return self.call(c, st.heap[key] if key in st.heap else ("attr", x, fv[1], st.epoch), list(fv[2]), dict(fv[3]), st)
 
     def ev_comp(self, e, st):  # noqa: C901
         gens = e.generators
@@ -1117,7 +1497,9 @@ class _Interp:
             same = isinstance(e, (ast.ListComp, ast.SetComp, ast.GeneratorExp)) and isinstance(e.elt, ast.Name) \
                 and isinstance(g.target, ast.Name) and e.elt.id == g.target.id
             place = ("elem", iv, self.uid())
+            cuid = self.uid()
             common = None
+            every = []          # what was newly known in each case in which an element was included
             one_elt = None
             probe = s.fork()
             before = dict(probe.facts)
@@ -1133,17 +1515,22 @@ class _Interp:
                 for s3 in states:
                     elts = [e.key, e.value] if isinstance(e, ast.DictComp) else [e.elt]
                     for vals, s4 in self.ev_seq(elts, s3):
+                        self._comp_uid = cuid
                         self.on_include(e, vals[-1], s4)
+                        self._comp_uid = None
                         one_elt = vals[-1]
                         new_ev.extend(x for x in s4.events[n_ev:] if x not in new_ev)
                         new_eff.extend(s4.effects[n_eff:])
                         gained = {(k, p) for k, p in s4.facts.items() if before.get(k) != p}
                         common = gained if common is None else common & gained
+                        every.append(gained)
             s.events.extend(new_ev)
             s.effects.extend(new_eff)
             filt = tuple(sorted(((_strip(k), p) for k, p in (common or ())), key=lambda kp: _vrepr(kp[0]))) if same and iv[0] != "gen" else None
             shape = _strip(one_elt) if one_elt is not None and not g.ifs and iv[0] != "gen" else None
-            res.append((("comp", self.uid(), iv, _strip(place), filt, shape), s))
+            cases = tuple(tuple(sorted(((_strip(k), p) for k, p in g_), key=lambda kp: _vrepr(kp[0]))) for g_ in every) \
+                if same and iv[0] != "gen" and len(every) <= 64 else None
+            res.append((("comp", cuid, iv, _strip(place), filt, shape, cases), s))
         return res
 
     # ---------------------------------------------------------------- calls
@@ -1190,7 +1577,13 @@ class _Interp:
     def call(self, c, fv, args, kwargs, st):  # noqa: C901, PLR0911, PLR0912
         lazy = fv[0] in ("closure", "func", "bound") or (fv[0] == "global" and fv[1] in ("iter", "next", "reversed", "enumerate", "filter", "map", "zip", "cast")) \
             or (fv[0] == "attr" and _strip(fv[1]) == _SELF and self.cls is not None and self.cls.lookup(fv[2]) is not None and self.follow(self.cls.lookup(fv[2])))
-        if not lazy:
+        std = self.stdlib_name(fv, st) if fv[0] in ("global", "attr") else None
+        if std is not None:
+            # lazy iterators / callables of the standard library are values: what they do is judged where they are iterated / called
+            r = self.stdlib_call(c, std, args, kwargs, st)
+            if r is not None:
+                return r
+        if not lazy and fv[0] not in ("partial", "record", "methodcaller"):
             for a in list(args) + list((kwargs or {}).values()):
                 if a[0] == "gen":
                     self.exhaust(a, st)
@@ -1198,6 +1591,15 @@ class _Interp:
         if r is not None:
             return r
         tag = fv[0]
+        r = self.apply_value(c, fv, args, kwargs, st)
+        if r is not None:
+            return r
+        if tag == "record":
+            ci = self._rec_classes.get(fv[1])
+            m = ci.lookup("__call__") if ci is not None else None
+            if m is not None:
+                return self.invoke(m.node, fv, args, kwargs, st, c)
+            return self.on_unknown_call(c, fv, args, kwargs, st)
         if tag == "closure":
             return self.invoke(fv[1], None, args, kwargs, st, c, self.cenv.get(fv[2]) if len(fv) > 2 else None)
         if tag == "func":
@@ -1205,7 +1607,7 @@ class _Interp:
                 return self.invoke(fv[1].node, None, args, kwargs, st, c)
             return self.on_unknown_call(c, fv, args, kwargs, st)
         if tag == "bound":
-            if self.follow(fv[2]):
+            if self.follow(fv[2]) or self.own_object_method(fv[2]):
                 return self.invoke(fv[2].node, fv[1], args, kwargs, st, c)
             return self.on_unknown_call(c, fv, args, kwargs, st)
         if tag == "global":
@@ -1216,6 +1618,9 @@ class _Interp:
             rec = self.record(target, args, kwargs)
             if rec is not None:
                 return [(rec, st)]
+            made = self.instantiate(target, args, kwargs, st, c)
+            if made is not None:
+                return made
             if hasattr(target, "node") and hasattr(target, "qualname") and not hasattr(target, "methods") and self.follow(target):
                 return self.invoke(target.node, None, args, kwargs, st, c)
             return self.on_unknown_call(c, fv, args, kwargs, st)
@@ -1233,6 +1638,15 @@ class _Interp:
                 m = ci.lookup(name) if hasattr(ci, "lookup") and hasattr(ci, "methods") else None
                 if m is not None and self.follow(m):
                     return self.invoke(m.node, None, args, kwargs, st, c)
+            if recv[0] == "record":
+                # a method of / a callable kept in an object the executed code created itself
+                held = dict(recv[2]).get(name)
+                if held is not None:
+                    return self.call(c, held, args, kwargs, st)
+                ci = self._rec_classes.get(recv[1])
+                m = ci.lookup(name) if ci is not None else None
+                if m is not None and not ({"property", "classmethod"} & set(m.decorator_names())):
+                    return self.invoke(m.node, None if "staticmethod" in m.decorator_names() else recv, args, kwargs, st, c)
             if recv[0] == "dict" and name == "get" and args and _STAR not in args:
                 alts = self.index(recv, args[0], st.fork())
                 dflt = args[1] if len(args) > 1 else _NONE
@@ -1258,6 +1672,8 @@ class _Interp:
             return [(("truth", args[0]) if args else ("const", False), st)]
         if name == "cast" and len(args) == 2:
             return [(args[1], st)]
+        if name == "iter" and len(args) == 2 and not kwargs:
+            return [(("itercall", args[0], args[1], c), st)]
         if name in _SAME_ELEMENTS and len(args) == 1 and name != "deque":
             return [(("iter", args[0]) if name == "iter" else ("reversed", args[0]) if name == "reversed" else args[0], st)]
         if name == "next" and args:
@@ -1293,20 +1709,30 @@ class _Interp:
             if len(args) == 3 and _strip(base) != _SELF:
                 out = [(("pcall", ("global", "getattr"), tuple(args), st.epoch), st)]
             return out
-        if name == "filter" and len(args) == 2 and args[0][0] in ("closure", "func", "bound", "attr"):
+        if name == "filter" and len(args) == 2 and args[0][0] in _CALLABLE_TAGS:
             return [(("filtered", args[0], args[1], c), st)]
+        if name == "map" and len(args) >= 2 and not kwargs and args[0][0] in _CALLABLE_TAGS:
+            return [(("mapped", args[0], tuple(args[1:]), c), st)]
         if name in _PURE_BUILTINS or name in _SAME_ELEMENTS:
             return [(("pcall", ("global", name), tuple(args), st.epoch), st)]
         return None
+
+    def plain_record_class(self, ci) -> bool:
+        decs = {(chain(d.func) if isinstance(d, ast.Call) else chain(d)) or "" for d in ci.node.decorator_list}
+        return ("NamedTuple" in ci.base_names or any(d.split(".")[-1] == "dataclass" for d in decs)) \
+            and not ({"__init__", "__new__", "__post_init__"} & set(ci.methods)) and len(ci.base_names) <= 1
+
+    def plain_class(self, ci) -> bool:
+        init = ci.methods.get("__init__")
+        return not (init is None or [b for b in ci.base_names if b != "object"]
+                    or {"__new__", "__setattr__", "__getattr__", "__getattribute__"} & set(ci.methods)
+                    or ci.module is not self.top.module or ci is self.cls or getattr(ci.node, "decorator_list", None) or _is_generator(init.node))
 
     def record(self, ci, args, kwargs):
         """the value built by calling a NamedTuple / plain dataclass: ("record", class name, ((field, value), ...)); None when ci is not one"""
         if not hasattr(ci, "annotations") or not hasattr(ci, "methods") or kwargs is None or _STAR in args:
             return None
-        decs = {(chain(d.func) if isinstance(d, ast.Call) else chain(d)) or "" for d in ci.node.decorator_list}
-        plain = ("NamedTuple" in ci.base_names or any(d.split(".")[-1] == "dataclass" for d in decs)) \
-            and not ({"__init__", "__new__", "__post_init__"} & set(ci.methods)) and len(ci.base_names) <= 1
-        if not plain:
+        if not self.plain_record_class(ci):
             return None
         fields = list(ci.annotations)
         if len(args) > len(fields) or any(k not in fields for k in kwargs):
@@ -1322,7 +1748,50 @@ class _Interp:
                 if cv is NOCONST:
                     return None
                 vals[f] = ("const", cv)
+        self._rec_classes[ci.name] = ci
         return ("record", ci.name, tuple((f, vals[f]) for f in fields))
+
+    def makes_object(self, fv, kwargs, st) -> bool:
+        """the call builds an object that is then a tracked value (NamedTuple / dataclass / plain class of the module), see record / instantiate"""
+        if fv[0] != "global" or kwargs is None:
+            return False
+        ci = self.repo.resolve_name(st.frames[-1].fi.module, fv[1])
+        if not hasattr(ci, "methods") or not hasattr(ci, "base_names"):
+            return False
+        return self.plain_record_class(ci) or self.plain_class(ci)
+
+    def record_property(self, base, name):
+        """the getter when `base.name` reads a property of an object the executed code made itself"""
+        if base[0] != "record" or name in dict(base[2]):
+            return None
+        ci = self._rec_classes.get(base[1])
+        m = ci.lookup(name) if ci is not None else None
+        return m if m is not None and {"property", "cached_property", "functools.cached_property"} & set(m.decorator_names()) \
+            and not _is_generator(m.node) else None
+
+    def own_object_method(self, fi) -> bool:
+        """a method of a class of which the executed code made an instance"""
+        return fi is not None and getattr(fi, "cls", None) is not None and self._rec_classes.get(fi.cls.name) is fi.cls
+
+    def instantiate(self, ci, args, kwargs, st, c):
+        """
+        Call of a plain class of the analysed module (no bases, own __init__): __init__ is executed on a fresh object and the
+        object is returned as a record of the fields it stored. None when the class is not of that kind.
+        """
+        if not hasattr(ci, "methods") or not hasattr(ci, "base_names") or kwargs is None or _STAR in args:
+            return None
+        if not self.plain_class(ci):
+            return None
+        init = ci.methods["__init__"]
+        obj = ("obj", self.uid(), ci.name)
+        self._rec_classes[ci.name] = ci
+        out = []
+        for _, s in self.invoke(init.node, obj, args, kwargs, st, c):
+            fields = tuple((a, val) for (b, a), val in s.objs.items() if b == obj)
+            for f, _ in fields:
+                s.heap.pop((obj, f), None)
+            out.append((("record", ci.name, fields), s))
+        return out
 
     def bind(self, fnode, recv, args, kwargs, st):
         a = fnode.args
@@ -1449,7 +1918,11 @@ class _Interp:
                     self.assign(x, ("sub", v, ("const", i)), st)
         elif isinstance(t, ast.Attribute):
             for b, s in self.ev(t.value, st)[:1]:
+                if b[0] == "record":
+                    raise _Und(f"field `{t.attr}` of a local object is rebound")
                 s.heap[(_strip(b), t.attr)] = v
+                if b[0] == "obj":
+                    s.objs[(b, t.attr)] = v
                 self.on_store(t, b, t.attr, v, s)
         elif isinstance(t, ast.Subscript):
             for vals, s in self.ev_seq([t.value, t.slice], st)[:1]:
@@ -1532,6 +2005,10 @@ class _Interp:
         if isinstance(s, (ast.Import, ast.ImportFrom)):
             for al in s.names:
                 st.frames[-1].env[(al.asname or al.name).split(".")[0]] = ("global", al.asname or al.name)
+                if isinstance(s, ast.ImportFrom) and not s.level:
+                    self._limports[al.asname or al.name] = (s.module or "", al.name)
+                elif isinstance(s, ast.Import):
+                    self._limports[al.asname or al.name.split(".")[0]] = (al.name if al.asname else al.name.split(".")[0], None)
             return [st]
         if isinstance(s, ast.Delete):
             for t in s.targets:
@@ -1676,8 +2153,10 @@ class _Interp:
         if kind == "handler":
             if node.ast.name:
                 st.frames[-1].env[node.ast.name] = self.unknown()
+            self.caught(st, _handler_types(node.ast.type))
             return [(None, st)]
-        has_exc = any(lab == "exc" and v is not cfg.raise_exit for v, lab in node.succ)
+        has_exc = any(lab == "exc" and v is not cfg.raise_exit for v, lab in node.succ) \
+            or (any(lab == "exc" for _, lab in node.succ) and _suppressor(node.ast) is not None)
         pre = st.fork() if has_exc else None
         saved, self._raised = self._raised, []
         try:
@@ -1719,11 +2198,37 @@ class _Interp:
             for _, s in outs:
                 pre.events.extend(x for x in s.events if x not in pre.events)
                 pre.effects.extend(s.effects[len(pre.effects):])
+            pre.exc_from = node.ast
             outs.append(("exc", pre))
         if raised:
             sel = "exc" if any(lab == "exc" for _, lab in node.succ) else "raise"
+            for s in raised:
+                s.exc_from = None       # raised by next() / raise / assert: nothing is known from the exception type
             outs.extend((sel, s) for s in raised)
         return outs
+
+    def caught(self, st, types) -> None:
+        """
+        An exception of one of `types` left the statement st.exc_from and is handled here. When that statement makes no call and
+        has exactly one item read `base[key]`, a KeyError says `key not in base` and an IndexError on [0] / [-1] says `base` is empty.
+        """
+        stmt, st.exc_from = st.exc_from, None
+        if stmt is None or not types or not set(types) <= {"KeyError", "IndexError"} or len(set(types)) != 1:
+            return
+        if isinstance(stmt, (ast.With, ast.AsyncWith, ast.For, ast.AsyncFor, ast.While, ast.Try, ast.If, ast.Match)):
+            return
+        subs = [n for n in walk_no_nested(stmt) if isinstance(n, ast.Subscript) and isinstance(n.ctx, ast.Load) and not isinstance(n.slice, ast.Slice)]
+        if len(subs) != 1 or any(isinstance(n, (ast.Call, ast.Await, ast.Yield, ast.YieldFrom, ast.NamedExpr, ast.BoolOp, ast.IfExp, ast.Lambda,
+                                                ast.ListComp, ast.SetComp, ast.DictComp, ast.GeneratorExp)) for n in walk_no_nested(stmt)):
+            return
+        got = self.ev_seq([subs[0].value, subs[0].slice], st)
+        if len(got) != 1:
+            return
+        (base, key), _ = got[0]
+        if types[0] == "KeyError":
+            self.assume(("cmp", "in", key, base), False, st)
+        elif key in (("const", 0), ("const", -1)):
+            self.assume(base, False, st)
 
     def run(self, st):
         """all paths of the function in the top frame of st: [("return" | "raise", state)]"""
@@ -1749,6 +2254,13 @@ class _Interp:
                 out.append(("raise", s))
                 continue
             for sel, s2 in self.step(cfg, node, s):
+                if sel in ("raise", "exc") and node.ast is not None:
+                    # inside `with suppress(...)`: the exception may end the with block instead of propagating
+                    w = _suppressor(node.ast)
+                    if w is not None and (sel == "raise" or node.kind != "dispatch" or any(lab == "exc" and v.kind != "handler" for v, lab in node.succ)):
+                        s3 = s2.fork()
+                        self.caught(s3, w[1])
+                        work.append((_after_node(cfg, w[0]), s3))
                 if sel == "raise":
                     out.append(("raise", s2))
                     continue
@@ -1834,6 +2346,8 @@ class _SendPaths(_Interp):
 
     # ---- what the interpreter may enter
     def follow(self, fi) -> bool:
+        if fi.cls is None and fi.module is self.top.module and enclosing_function(fi.node) is None:
+            return True         # a plain function of the same module
         return fi.cls is self.te and fi.node is not self.top.node and fi.name in self.te.methods and self.te.methods[fi.name] is fi
 
     def read_field(self, base, name, st):
@@ -1845,9 +2359,23 @@ class _SendPaths(_Interp):
         return None
 
     # ---- the anonymity switch of this packet
+    def named_const(self, v):
+        """a module constant used by name stands for its value"""
+        if type(v) is tuple and len(v) == 2 and v[0] == "global":
+            try:
+                cv = self.repo.resolve_const(self.top.module, ast.Name(id=v[1], ctx=ast.Load()))
+            except Exception:  # noqa: BLE001
+                return v
+            if cv is not NOCONST and type(cv) is int:
+                return ("const", cv)
+        return v
+
     def is_key(self, v) -> bool:
-        return v[0] == "slice" and v[1] == self.packet and v[2] in (_NONE, ("const", 0)) and v[3] == ("const", 22) and not isinstance(v[3][1], bool) \
-            and v[4] in (_NONE, ("const", 1))
+        if v[0] != "slice":
+            return False
+        lo, hi, step = self.named_const(v[2]), self.named_const(v[3]), self.named_const(v[4])
+        return v[1] == self.packet and lo in (_NONE, ("const", 0)) and hi == ("const", 22) and not isinstance(hi[1], bool) \
+            and step in (_NONE, ("const", 1))
 
     def is_read(self, v) -> bool:
         if v[0] == "truth":
@@ -1857,13 +2385,50 @@ class _SendPaths(_Interp):
             return 1 <= len(a) <= 2 and self.is_key(a[0]) and (len(a) == 1 or (a[1][0] == "const" and (a[1][1] is None or a[1][1] is False or (type(a[1][1]) is int and a[1][1] == 0))))
         return v[0] == "sub" and v[1] == _T_SETTINGS and self.is_key(v[2])
 
+    def read_with_default(self, v):
+        """the default D when v is self.settings.get(<key of this packet>, D) with a default that is not a falsy constant, else None"""
+        while v[0] == "truth":
+            v = v[1]
+        if v[0] == "pcall" and v[1] == ("attr", _T_SETTINGS, "get") and len(v[2]) == 2 and self.is_key(v[2][0]) and not self.is_read(v):
+            return v[2][1]
+        return None
+
+    def is_sentinel(self, d) -> bool:
+        """a module-level NAME = object(): a value no table entry can be"""
+        if d[0] != "global":
+            return False
+        expr = getattr(self.top.module, "constants", {}).get(d[1])
+        return isinstance(expr, ast.Call) and chain(expr.func) == "object" and not expr.args and not expr.keywords
+
     def switch(self, facts) -> set:
         out = set()
+        facts = [(_strip(k), pol) for k, pol in facts]
+        # table.get(key, D) with some other default D: a falsy result is "off" whatever D is (a falsy entry, or no entry and a falsy D
+        # - both falsy for get(key, False) too); a truthy result that is not D is the entry itself; D itself, for a private sentinel, is "no entry"
+        not_default = set()
         for k, pol in facts:
-            k = _strip(k)
+            if k[0] == "cmp" and k[1] in ("is", "eq"):
+                for a, b in ((k[2], k[3]), (k[3], k[2])):
+                    d = self.read_with_default(a)
+                    if d is not None and d == b:
+                        if not pol:
+                            not_default.add(a)
+                        elif k[1] == "is" and self.is_sentinel(d):
+                            out.add(OFF)
+        for k, pol in facts:
+            if self.read_with_default(k) is not None:
+                inner = k
+                while inner[0] == "truth":
+                    inner = inner[1]
+                if not pol:
+                    out.add(OFF)
+                elif inner in not_default:
+                    out.add(ON)
+        for k, pol in facts:
             if self.is_read(k):
                 out.add(ON if pol else OFF)
-            elif k[0] == "cmp" and k[1] == "in" and k[3] == _T_SETTINGS and self.is_key(k[2]):
+            elif k[0] == "cmp" and k[1] == "in" and self.is_key(k[2]) \
+                    and (k[3] == _T_SETTINGS or (k[3][0] == "pcall" and k[3][1] == ("attr", _T_SETTINGS, "keys") and not k[3][2])):
                 if not pol:
                     out.add(OFF)        # no entry: get(..., falsy) is falsy
             elif k[0] == "cmp" and k[1] in ("eq", "is") and pol:
@@ -1950,6 +2515,8 @@ class _SendPaths(_Interp):
 
     def on_store(self, t, base, name, v, st) -> None:
         b = _strip(base)
+        if b[0] == "obj":
+            return              # a field of an object made right here: the object is a tracked value, judged where it is used / handed on
         if v is not None and self.leaks(v):
             self.other(st, enclosing_stmt(t), "the raw endpoint / its send method is stored in an object")
         elif isinstance(t, ast.Attribute) and b == _SELF and name in ("settings", "send_queue", "endpoint"):
@@ -1980,7 +2547,8 @@ class _SendPaths(_Interp):
         return type(v) is tuple and v[:1] != ("const",) and any(self.leaks(x) for x in v if type(x) is tuple)
 
     def on_call(self, c, fv, args, kwargs, st):  # noqa: C901, PLR0911, PLR0912
-        if any(self.leaks(a) for a in list(args) + list((kwargs or {}).values())) and not (fv[0] == "closure" or (fv[0] == "attr" and _strip(fv[1]) == _SELF)):
+        if any(self.leaks(a) for a in list(args) + list((kwargs or {}).values())) and not (fv[0] == "closure" or (fv[0] == "attr" and _strip(fv[1]) == _SELF)) \
+                and not self.makes_object(fv, kwargs, st):
             self.other(st, c, "the raw endpoint / its send method is handed to " + (_vchain(_strip(fv)) or chain(c.func) or "a call"))
         if fv[0] != "attr":
             return None
@@ -2261,7 +2829,7 @@ class _FindPaths(_Interp):
     def include(self, node, value, st) -> None:
         if value[0] not in ("elem", "sub", "loopvar"):
             return              # not an element of a collection (a truth value computed by an inner comprehension, ...)
-        self.includes.append((node, st.frames[-1].fi, _strip(value), tuple((_strip(k), p) for k, p in st.facts.items())))
+        self.includes.append((node, st.frames[-1].fi, _strip(value), tuple((_strip(k), p) for k, p in st.facts.items()), self._comp_uid))
 
     def on_include(self, comp, value, st) -> None:
         self.include(comp, value, st)
@@ -2295,8 +2863,39 @@ def _circuit_filter(ctx, fi):  # noqa: C901, PLR0912
     def as_set(v, inner) -> bool:
         return v == inner or (v[0] == "pcall" and v[1] in (("global", "set"), ("global", "frozenset")) and v[2] == (inner,))
 
+    # a result that is filtered in stages (a comprehension / generator expression over the result of the previous one): what matters
+    # is what gets through all stages, so the stages are judged together at the return and not one by one
+    def unwrap(v):
+        while v[0] in ("slice", "iter", "reversed", "islice") or (v[0] == "pcall" and v[1] in (("global", "list"), ("global", "tuple"), ("global", "sorted"))
+                                                                  and len(v[2]) >= 1):
+            v = v[1] if v[0] != "pcall" else v[2][0]
+        return v
+
+    def subst(v, old, new):
+        if v == old:
+            return new
+        return tuple(subst(x, old, new) for x in v) if type(v) is tuple else v
+    staged, together = set(), []
+    for kind, st in outs:
+        if kind != "return":
+            continue
+        stages = []
+        v = unwrap(_strip(st.ret))
+        while v[0] == "comp" and len(v) > 6 and v[6] is not None:
+            stages.append(v)
+            v = unwrap(v[2])
+        if len(stages) < 2 or v[0] == "comp":
+            continue
+        elem = stages[0][3]
+        combos = [tuple((_strip(k), p) for k, p in st.facts.items())]
+        for stage in stages:
+            combos = [c + tuple((subst(k, stage[3], elem), p) for k, p in case) for c in combos for case in stage[6]]
+            if len(combos) > 4096:
+                raise _Und("too many cases in the staged filter of find_circuits")
+        staged.update(stage[1] for stage in stages)
+        together.extend((fi.node, fi, elem, c, None) for c in combos)
     out = []
-    for node, hf, elem, facts in it.includes:
+    for node, hf, elem, facts, cuid in [x for x in it.includes if x[4] not in staged or x[4] is None] + together:
         cflags, chops = ("attr", elem, "exit_flags"), ("attr", elem, "goal_hops")
         f_ok, f_known, h_ok, h_known = False, True, False, True
         for k, pol in facts:
@@ -2373,6 +2972,10 @@ def _index_error_caught(node) -> bool:
                 ts = [h.type] if not isinstance(h.type, ast.Tuple) else list(h.type.elts)
                 if h.type is None or any(chain(t) in ("IndexError", "LookupError", "Exception", "BaseException") for t in ts):
                     return True
+        if isinstance(a, (ast.With, ast.AsyncWith)) and any(cur is x for x in a.body):
+            names = _suppress_items(a)
+            if names is not None and set(names) & {"IndexError", "LookupError", "Exception", "BaseException"}:
+                return True
         cur = a
     return False
 
@@ -2715,6 +3318,42 @@ def rule_send(ctx: Ctx) -> None:
     raise AnalysisError(f"{err}; symbolic paths: no raw / tunnel send reached")
 
 
+def _module_value(repo, fi, e):
+    """the expression a local alias / module-level name stands for (one step each), else the expression itself"""
+    if isinstance(e, ast.Name):
+        e = resolve(fi, e)
+    if isinstance(e, ast.Name):
+        r = repo.resolve_name(fi.module, e.id)
+        if isinstance(r, tuple) and len(r) == 3 and r[0] == "const":
+            return r[2]
+    return e
+
+
+def _call_parts(repo, fi, v: ast.Call):
+    """(callee, positional arguments, {keyword: value}) of a call after expanding functools.partial(...) callees and **{literal} arguments"""
+    if any(isinstance(a, ast.Starred) for a in v.args):
+        return None
+    func, args, kws = v.func, list(v.args), {}
+    for k in v.keywords:
+        if k.arg is not None:
+            kws[k.arg] = k.value
+            continue
+        d = _module_value(repo, fi, k.value)
+        if not isinstance(d, ast.Dict) or not all(isinstance(x, ast.Constant) and isinstance(x.value, str) for x in d.keys):
+            return None
+        kws.update({x.value: y for x, y in zip(d.keys, d.values)})
+    for _ in range(3):
+        f = _module_value(repo, fi, func)
+        if isinstance(f, ast.Call) and (chain(f.func) or "").split(".")[-1] == "partial" and f.args:
+            inner = _call_parts(repo, fi, f)
+            if inner is None:
+                return None
+            func, args, kws = inner[1][0], inner[1][1:] + args, {**inner[2], **kws}
+        else:
+            break
+    return func, args, kws
+
+
 def _bounded_deque(repo, te, fi, v, depth: int = 3) -> bool:
     """the expression builds deque(..., maxlen=<positive constant>) - directly, through a local, or through a method of the class that returns one"""
     v = strip_cast(v) if v is not None else None
@@ -2724,11 +3363,19 @@ def _bounded_deque(repo, te, fi, v, depth: int = 3) -> bool:
         return _bounded_deque(repo, te, fi, v.body, depth) and _bounded_deque(repo, te, fi, v.orelse, depth)
     if not isinstance(v, ast.Call):
         return False
-    if (chain(v.func) or "").split(".")[-1] == "deque":
-        ml = arg(v, 1, "maxlen")
+    parts = _call_parts(repo, fi, v)
+    if parts is not None and (chain(parts[0]) or "").split(".")[-1] == "deque":
+        ml = parts[1][1] if len(parts[1]) > 1 else parts[2].get("maxlen")
         mlv = repo.resolve_const(fi.module, ml, fi.cls) if ml is not None else None
         return isinstance(mlv, int) and not isinstance(mlv, bool) and mlv > 0
     ch = chain(v.func) or ""
+    if depth > 0 and isinstance(v.func, ast.Name):
+        hf = repo.resolve_name(fi.module, v.func.id)
+        if hasattr(hf, "node") and hasattr(hf, "qualname") and not hasattr(hf, "methods") and hf.cls is None:
+            # a plain function of the module that returns the queue
+            rets = [r for r in walk_no_nested(hf.node) if isinstance(r, ast.Return)]
+            return bool(rets) and not hf.is_async and not _is_generator(hf.node) \
+                and all(r.value is not None and _bounded_deque(repo, te, hf, r.value, depth - 1) for r in rets)
     if depth > 0 and ch.startswith(("self.", "cls.")) and ch.count(".") == 1 and ch.split(".")[1] in te.methods:
         hf = te.methods[ch.split(".")[1]]
         rets = [r for r in walk_no_nested(hf.node) if isinstance(r, ast.Return)]
@@ -2768,8 +3415,18 @@ def rule_queue(ctx: Ctx) -> None:
                   "the queue of packets waiting for a circuit is unbounded or rebound")
     ctx.check(len([1 for fi, _ in writes if _only_from_init(repo, te, fi)]) <= 1, "bounded-queue", te.where, "send_queue",
               "send_queue assigned once", "the queue of packets waiting for a circuit is rebound")
+    own = {id(n) for n in ast.walk(te.node) if isinstance(n, (ast.FunctionDef, ast.AsyncFunctionDef, ast.Lambda))}
     for m, fi, a in repo.attribute_uses("send_queue"):
-        ctx.check(fi is not None and fi.cls is te, "bounded-queue", fi or m.relpath, a, "send_queue used only inside TunnelEndpoint",
+        ok = fi is not None and fi.cls is te
+        if not ok and fi is not None and fi.cls is not None and fi.module is te.module and fi.cls.name.startswith("_") \
+                and not fi.cls.name.startswith("__") and not fi.cls.base_names:
+            # a private helper object of the module that only TunnelEndpoint makes and that is merely handed the queue: it may use
+            # it, not replace it (its own field of that name is set from a parameter only)
+            ok = _used_only_by(ctx, fi.cls.name, fi.cls.node, own)
+            if isinstance(a.ctx, ast.Store):
+                stv = getattr(enclosing_stmt(a), "value", None)
+                ok = ok and isinstance(stv, ast.Name) and is_param(fi, stv.id) and not local_defs(fi, stv.id)
+        ctx.check(ok, "bounded-queue", fi or m.relpath, a, "send_queue used only inside TunnelEndpoint",
                   "send_queue is accessed from outside TunnelEndpoint")
 
 
@@ -2838,6 +3495,10 @@ def _kept_local(ctx, a, fi) -> bool:
         if isinstance(p_, ast.Subscript) and p_.value is cur:
             cur = p_
             continue
+        if isinstance(p_, ast.Call) and p_.func is not cur and p_.args and p_.args[0] is cur \
+                and (chain(p_.func) or "").split(".")[-1] == "partial":
+            cur = p_                        # partial(<bound send>, ...) is the bound send with some arguments fixed: a value the analysis tracks
+            continue
         if isinstance(p_, ast.Call):
             return p_.func is cur
         if isinstance(p_, (ast.Assign, ast.AnnAssign)):
@@ -2847,11 +3508,68 @@ def _kept_local(ctx, a, fi) -> bool:
     return False
 
 
+def _in_annotation(n) -> bool:
+    cur = n
+    for a in ancestors(n):
+        if isinstance(a, ast.arg) or (isinstance(a, (ast.FunctionDef, ast.AsyncFunctionDef)) and a.returns is cur) \
+                or (isinstance(a, ast.AnnAssign) and a.annotation is cur):
+            return True
+        if isinstance(a, ast.stmt):
+            return False
+        cur = a
+    return False
+
+
+def _used_only_by(ctx, name: str, own, entered: set) -> bool:
+    """every mention of the private module-level class / function `name` lies in itself, in an annotation, or in a function that send runs"""
+    for m in ctx.repo.modules.values():
+        for n in ast.walk(m.tree):
+            named = (isinstance(n, ast.Attribute) and n.attr == name) or (isinstance(n, ast.Name) and n.id == name) \
+                or (isinstance(n, ast.Constant) and n.value == name) or (isinstance(n, ast.alias) and name in (n.name, n.asname))
+            if not named:
+                continue
+            if any(a is own for a in ancestors(n)) or _in_annotation(n):
+                continue
+            f = ctx.repo.function_of(n)
+            if f is not None and id(f.node) in entered:
+                continue
+            return False
+    return True
+
+
+def _raw_sites_elsewhere(ctx, te) -> list:
+    """
+    Raw sends that the symbolic analysis of send met outside TunnelEndpoint's own methods - in a private callable class or plain
+    function of the same module that send uses in place of a closure: [(function, call, ok)]. ok: every execution of the site was
+    judged a proper RAW effect, and nothing but send (and what send runs) can get at that class / function.
+    """
+    mod = ctx.repo.module(EP)
+    if not (set(mod.classes) - {te.name}) and not mod.functions:
+        return []
+    verdict, _ = _send_symbolic(ctx)
+    if verdict is None:
+        return []
+    out = {}
+    for kind, sfi, node, ok, _why, _facts in verdict.sites:
+        if kind != "RAW" or isinstance(sfi, _LambdaInfo) or sfi.cls is te or enclosing_function(sfi.node) is not None:
+            continue
+        owner = sfi.cls if sfi.cls is not None else sfi
+        private = owner.name.startswith("_") and not owner.name.startswith("__")
+        closed = private and owner.module is mod and _used_only_by(ctx, owner.name, owner.node, verdict.entered)
+        prev = out.get(id(node))
+        out[id(node)] = (sfi, node, bool(ok and closed and (prev is None or prev[2])))
+    return list(out.values())
+
+
 def rule_who(ctx: Ctx) -> None:
     repo = ctx.repo
     te = repo.cls("TunnelEndpoint", EP)
     helpers = _raw_helpers(repo, te)
     n = 0
+    for sfi, node, ok in _raw_sites_elsewhere(ctx, te):
+        n += 1
+        ctx.check(ok, "raw-send", sfi, node, "raw endpoint.send in a private helper that only TunnelEndpoint.send uses",
+                  "the wrapped endpoint's send is called outside the anonymity switch")
     for fi in [f for f in repo.all_functions() if f.cls is te]:
         for c in calls(fi):
             if (_achain(fi, c.func) or chain(c.func)) != "self.endpoint.send":
@@ -2865,7 +3583,8 @@ def rule_who(ctx: Ctx) -> None:
                       "the wrapped endpoint's send is called outside the anonymity switch")
         # handing out the raw endpoint's bound send method
         for a in walk_no_nested(fi.node):
-            if isinstance(a, ast.Attribute) and chain(a) == "self.endpoint.send" and not isinstance(getattr(a, "_parent", None), ast.Call):
+            par = getattr(a, "_parent", None)
+            if isinstance(a, ast.Attribute) and chain(a) == "self.endpoint.send" and not (isinstance(par, ast.Call) and par.func is a):
                 n += ctx.check(_kept_local(ctx, a, fi), "raw-send", fi, a, "no escaping reference to the raw send", "raw send method escapes")
     ctx.floor("raw-send", n, 1)
     # nobody reaches under the wrapper
